@@ -10,10 +10,10 @@ META = {
                  'Sum-product exactness on arbitrary junction trees is not SMT-dischargeable (inductive sub-tree invariant over exponentially large sums) and is decided bounded.',
              trusted=['numpy IEEE semantics of ==, unary -, +, np.where on one arbitrary cell (written out in pv/contracts/extsub.py)', 'alignment of operand axes (C14 invariant)']),
  'C02': dict(technique=DED + ': call-site contracts of GraphicalModel.project (requested tuple reaches Factor.project on both paths, total passed to VE) and the normalisation idiom of variable elimination; equality with the explicit joint decided bounded',
-             ded='GraphicalModel.project: on every path the answer is <factor>.project(attrs) for the requested tuple, VE is normalised to self.total and eliminates exactly the other attributes; '
+             ded='GraphicalModel.project: on every path the answer went through exactly one <factor>.project(attrs) for the requested tuple (a path returning a stored table as it is fails), belief_propagation(logZ=True) returns log Z under L-cal (krondot divides by it), VE is normalised to self.total and eliminates exactly the other attributes; '
                  'variable_elimination_logspace returns a table summing to total (L-norm); GraphicalModel.datavector (the full-vector query): the table on the covered attributes sums to 1, expansion onto the whole domain multiplies the sum by the ratio of cell counts, the weight undoes it and the result sums to self.total.',
              trusted=['exp/log identities over the reals (normalisation idiom)', 'Factor.project returns axes in the requested order (proved in C14)']),
- 'C03': dict(technique=DED + ' for the Armijo acceptance test only; attainment of the global optimum is a bounded run-time contract (certified Frank-Wolfe bracket)',
+ 'C03': dict(technique=DED + ' for the Armijo acceptance test and the one-cell instance of the objective (_marginal_loss: gradient = derivative of the loss); attainment of the global optimum is a bounded run-time contract (certified Frank-Wolfe bracket)',
              ded='mirror_descent: a line-search step is accepted exactly when the decrease of the candidate computed from omega - alpha*dL is >= 0.5*alpha*<dL, nu - mu> (branch-site contract). '
                  'Convergence of three floating-point solvers "given enough iterations" is outside deductive reach (not applicable at clause level).',
              trusted=['belief_propagation, _marginal_loss, dot are deterministic side-effect-free callees']),
